@@ -68,29 +68,12 @@ theorem flatInsert_empty_inv (S : Schema) (mid : List Node) (p : Option TypeId) 
     c = mid ∧ ∀ t, p = some t → S.validContent t mid = true := by
   have hgo : fappend (fappend [] mid) [] = mid := by
     cases mid <;> simp [fappend]
-  cases p with
-  | none =>
-    simp [flatInsert, fcut, hgo] at h
-    exact ⟨h.symm, fun t ht => by simp at ht⟩
-  | some t =>
-    cases hcr : S.canReplace t [] 0 0 mid 0 mid.length with
-    | none => simp [flatInsert, hcr] at h
-    | some b =>
-      cases b with
-      | false => simp [flatInsert, hcr] at h
-      | true =>
-        simp [flatInsert, hcr, fcut, hgo] at h
-        refine ⟨h.symm, fun t' ht' => ?_⟩
-        simp only [Option.some.injEq] at ht'
-        subst ht'
-        simp only [Schema.canReplace, Schema.contentMatchAt, List.take_nil, Schema.types, List.map_nil, Dfa.run,
-          List.drop_zero, List.take_length, List.drop_nil] at hcr
-        simp only [Schema.validContent, Dfa.accepts, Schema.types]
-        split at hcr
-        · simp at hcr
-        · rename_i q1 hq1
-          rw [hq1]
-          simpa using hcr
+  obtain ⟨l, r, hl, hr, rfl, hv⟩ := flatInsert_ok_iff.1 h
+  have el : l = [] := by simpa [fcut] using hl.symm
+  have er : r = [] := by simpa [fcut] using hr.symm
+  subst el er
+  rw [hgo] at hv ⊢
+  exact ⟨rfl, hv⟩
 
 /-- **if the insertion into the nest succeeds, it filled the innermost wrapper**, and that wrapper
     accepts the inserted nodes (types and marks) -/
